@@ -113,6 +113,9 @@ def SpecSt.request (sp : SpecSt) (op : Op) (items : List Item) : SpecSt :=
   match op with
   | .send i => if items.any (· == .threw) then sp else
       { sp with futOf := (sp.nfut, i) :: sp.futOf, nfut := sp.nfut + 1 }
+  -- a received buffer handed back to `Send` of its own socket: a future is created, like `send`
+  | .echo i => if items.any (· == .threw) then sp else
+      { sp with futOf := (sp.nfut, i) :: sp.futOf, nfut := sp.nfut + 1 }
   | .destroySock i => { sp with dead := i :: sp.dead }
   | .mkSock i _ _ onDisc _ _ =>
     { sp with socks := addNew sp.socks i,
@@ -216,6 +219,7 @@ def opLine : Op → String
   | .mkSock i k d a b c =>
     s!"sock {i} {match k with | .tcp => "tcp" | .udp => "udp" | .acc => "acc"} {d} {b01 a} {b01 b} {b01 c}"
   | .send i => s!"send {i}"
+  | .echo i => s!"echo {i}"
   | .release i => s!"release {i}"
   | .destroySock i => s!"dsock {i}"
   | .peerSend i => s!"psend {i}"
@@ -695,6 +699,54 @@ theorem step_ok (accept : Nat → Bool) {m : Sys} {sp : SpecSt} (hrel : Rel m sp
           rw [(hframe j).2.2] at hj'
           exact hrel.cover j hj'
         nd := hrel.nd }
+  | echo i =>
+    obtain ⟨hlog, hframe, hnf, hfuts⟩ := exec_echo hub hl
+    have hgrow : (exec .fixed m.st (.echo i)).log = [] ++ m.st.log := by simpa using hlog
+    have hitems : modelItems accept m.st (exec .fixed m.st (.echo i)) = [] := by
+      unfold modelItems
+      rw [hL'.ub]
+      simp only [modelEvents_of_grow hgrow]
+      rfl
+    have hreq : sp.request (.echo i) (modelItems accept m.st (exec .fixed m.st (.echo i))) =
+        { sp with futOf := (sp.nfut, i) :: sp.futOf, nfut := sp.nfut + 1 } := by
+      rw [hitems]; rfl
+    rw [hreq]
+    have hfutOf : ∀ id j, (id, j) ∈ (sp.nfut, i) :: sp.futOf → ∃ st, (exec .fixed m.st (.echo i)).futs id = some (j, st) := by
+      intro id j hm
+      rw [hfuts]
+      rcases List.mem_cons.mp hm with heq | hm
+      · cases heq
+        exact ⟨.pending, by rw [if_pos hrel.nfut]⟩
+      · obtain ⟨st, hst⟩ := hrel.futOf id j hm
+        have hlt : id < m.st.nfut := hrel.linv.nf id (by rw [hst]; simp)
+        exact ⟨st, by rw [if_neg (by omega)]; exact hst⟩
+    have hdeadS : ∀ j ∈ sp.dead, ((exec .fixed m.st (.echo i)).sock j).present = true ∧
+        ((exec .fixed m.st (.echo i)).sock j).alive = false := by
+      intro j hj
+      obtain ⟨hp, ha⟩ := hrel.dead j hj
+      exact ⟨by rw [(hframe j).1]; exact hp, by rw [(hframe j).2.2]; exact ha⟩
+    obtain ⟨R, hfin, hR⟩ := finish_ok accept (sp1 := { sp with futOf := (sp.nfut, i) :: sp.futOf, nfut := sp.nfut + 1 })
+      (sp1' := { sp with futOf := (sp.nfut, i) :: sp.futOf, nfut := sp.nfut + 1 }) hgrow hL'.ub hG' hF'
+      hrel.res hfutOf rfl rfl rfl (fun j hj => (hdeadS j hj).2)
+    refine ⟨_, after_ok hfin, ?_⟩
+    exact
+      { linv := hL', finv := hF', loginv := hG'
+        nfut := by show sp.nfut + 1 = (exec .fixed m.st (.echo i)).nfut; rw [hnf, hrel.nfut]
+        futOf := hfutOf
+        res := hR
+        dead := hdeadS
+        selfD := by
+          intro j hj
+          obtain ⟨hp, ho⟩ := hrel.selfD j hj
+          exact ⟨by show ((exec .fixed m.st (.echo i)).sock j).present = true; rw [(hframe j).1]; exact hp,
+                 by show ((exec .fixed m.st (.echo i)).sock j).onDisc = true; rw [(hframe j).2.1]; exact ho⟩
+        socks := hrel.socks
+        cover := by
+          intro j hj
+          have hj' : ((exec .fixed m.st (.echo i)).sock j).alive = true := hj
+          rw [(hframe j).2.2] at hj'
+          exact hrel.cover j hj'
+        nd := hrel.nd }
   | mkSock i k d a b c =>
     obtain ⟨hlog, hfuts, hnf, hother, hpres, halive, hod, hnp⟩ := exec_mkSock hub hl
     have hgrow : (exec .fixed m.st (.mkSock i k d a b c)).log = [] ++ m.st.log := by simpa using hlog
@@ -842,6 +894,13 @@ example : (modelTrace (fun _ => true) {} demoHistory)[7]? = some (.op "send 0" (
 example : (modelTrace (fun _ => true) {} demoHistory)[14]? = some (.fin "end" [.fut 2 .broken, .done]) := by rfl
 
 example : specCheck (modelTrace (fun _ => true) {} demoHistory) = .ok () := by rfl
+
+/-- the echo idiom: socket destroyed with an echoed receive buffer queued -/
+example : modelTrace (fun _ => true) {}
+      [.mkDriver 0, .mkSock 0 .tcp 0 false true false, .peerSend 0, .step 0, .echo 0, .echo 0, .destroySock 0] =
+    [.op "driver 0" (.mkDriver 0) [], .op "sock 0 tcp 0 0 1 0" (.mkSock 0 .tcp 0 false true false) [],
+     .op "psend 0" (.peerSend 0) [], .op "step 0" (.step 0) [.handler .recv 0], .op "echo 0" (.echo 0) [],
+     .op "echo 0" (.echo 0) [.skipped], .op "dsock 0" (.destroySock 0) [.fut 0 .broken], .fin "end" [.done]] := by rfl
 
 /-- the spec rejects a handler that runs after its socket was destroyed ... -/
 example : specRun {} [.op "sock 0 tcp 0 0 0 0" (.mkSock 0 .tcp 0 false false false) [],
